@@ -972,6 +972,18 @@ func TestVerifC13(t *testing.T) {
 		h.doc([]byte(s), "raw document", []string{"raw"}, []uint{5, 10, 11, 12, 23, 28}, 2)
 	}
 
+	// targets outside the range
+	for _, tc := range []struct {
+		body   string
+		target uint
+	}{{"schema_version: 20\n", 10}, {"schema_version: 20\n", 30}, {"schema_version: 28\n", 4000000000}, {"", 0}, {"~", 0}, {"schema_version: 3\n", 3}} {
+		top, err := c13Parse([]byte(tc.body))
+		if err != nil {
+			t.Fatal(err)
+		}
+		h.mig([]byte(tc.body), top, tc.target, "target outside the range or equal to the version", []string{"odd-target"})
+	}
+
 	// every golden input: one run, every split point for the first, in memory
 	for step := uint(1); step <= h.last; step++ {
 		b := c13GoldenInput(t, step)
